@@ -91,6 +91,13 @@ Proof.
   intros L HL Hb. unfold pl_chain. rewrite lookup_app by assumption. rewrite Hb, lookup_pl_base, str_eqb_refl. reflexivity.
 Qed.
 
+(* the map argument itself is the plain argument in implicit-attribute mode too (AddArgs([m]) lies ABOVE AddMap(m)):
+   a lookup of m never answers ThisName, so  m  is never read as  m.m  *)
+Lemma lookup_map_wm : forall L, local L = true -> bound_in L m = false -> lookup (wm L) m = Some (id_plain m).
+Proof.
+  intros L HL Hb. unfold wm_chain. rewrite lookup_app by assumption. rewrite Hb, lookup_wm_base, str_eqb_refl. reflexivity.
+Qed.
+
 Lemma resolve_attr : forall L x, local L = true -> free_attr L x = true ->
   resolve (wm L) x = Some (AAccess x (AIdent m false)).
 Proof.
